@@ -750,3 +750,4 @@ impl UringConnectionHandler for ZmtpUringHandler {
     );
   }
 }
+#[cfg(rzmq_verif)] #[path = "../verif/uring_handler_access.rs"] pub(crate) mod verif_access;
